@@ -43,20 +43,59 @@
 ; reqCustom(RS, off, n, c): c occurs in one of the non-empty custom required strings
 (define-fun reqCustom ((RS (Array Int Str)) (off Int) (n Int) (c Str)) Bool
   (exists ((k Int)) (and (<= 0 k) (< k n) (not (= (select RS (idx off k)) eps)) (incs (select RS (idx off k)) c))))
-; inA(r, RS, off, n, c): c is in the recipe's alphabet - allowed or required, and not excluded (statement of C03)
-(define-fun inA ((r CharRecipe) (RS (Array Int Str)) (off Int) (n Int) (c Str)) Bool
+; inA(r, RS, off, n, c): c is in the recipe's alphabet - allowed or required, and not excluded (statement of C03).
+; Opaque in most verification conditions; revealed with "uses INA-def".
+(declare-fun inA (CharRecipe (Array Int Str) Int Int Str) Bool)
+;;@ axiom INA-def optin trigger=inA :: DEFINITION of the spec predicate inA (alphabet membership, from the statement of C03)
+(assert (forall ((r CharRecipe) (RS (Array Int Str)) (off Int) (n Int) (c Str)) (! (= (inA r RS off n c)
   (and (or (incs (CharRecipe_AllowChars r) c) (classIn (CharRecipe_Allow r) c) (reqCustom RS off n c) (classIn (CharRecipe_Require r) c))
-       (not (excluded r c))))
+       (not (excluded r c)))) :pattern ((inA r RS off n c)))))
+;;@ axiom INA-elim trigger=inA :: consequence of INA-def: a member of the alphabet is not excluded
+(assert (forall ((r CharRecipe) (RS (Array Int Str)) (off Int) (n Int) (c Str)) (! (=> (inA r RS off n c) (not (excluded r c))) :pattern ((inA r RS off n c)))))
 ; hitsSrc(r, src, pw): the required source set src, if it still has a non-excluded member, is hit by pw
 (define-fun hitsSrc ((r CharRecipe) (src Str) (pw Str)) Bool
   (=> (exists ((c Str)) (and (incs src c) (not (excluded r c))))
       (exists ((c Str)) (and (incs src c) (not (excluded r c)) (incs pw c)))))
-; meets(r, RS, off, n, pw): pw contains a character from every required set that still has a non-excluded member
-(define-fun meets ((r CharRecipe) (RS (Array Int Str)) (off Int) (n Int) (pw Str)) Bool
+; meets(r, RS, off, n, pw): pw contains a character from every required set that still has a non-excluded member.
+; Opaque; revealed with "uses MEETS-def".
+(declare-fun meets (CharRecipe (Array Int Str) Int Int Str) Bool)
+;;@ axiom MEETS-def optin trigger=meets :: DEFINITION of the spec predicate meets (requirements of a character recipe, from the statement of C03)
+(assert (forall ((r CharRecipe) (RS (Array Int Str)) (off Int) (n Int) (pw Str)) (! (= (meets r RS off n pw)
   (and (forall ((k Int)) (=> (and (<= 0 k) (< k n) (not (= (select RS (idx off k)) eps))) (hitsSrc r (select RS (idx off k)) pw)))
        (=> (bitset (CharRecipe_Require r) 1) (hitsSrc r cls_upper pw)) (=> (bitset (CharRecipe_Require r) 2) (hitsSrc r cls_lower pw))
        (=> (bitset (CharRecipe_Require r) 4) (hitsSrc r cls_digits pw)) (=> (bitset (CharRecipe_Require r) 8) (hitsSrc r cls_symbols pw))
-       (=> (bitset (CharRecipe_Require r) 16) (hitsSrc r cls_ambiguous pw))))
+       (=> (bitset (CharRecipe_Require r) 16) (hitsSrc r cls_ambiguous pw)))) :pattern ((meets r RS off n pw)))))
 ; a set of one-character valid strings
 (define-fun charset ((S (Array Str Bool))) Bool (forall ((c Str)) (! (=> (select S c) (and (= (clen c) 1) (utf8ok c))) :pattern ((select S c)))))
 (define-fun nodupS ((s Str)) Bool (forall ((i Int) (j Int)) (! (=> (and (<= 0 i) (< i j) (< j (clen s))) (not (= (select (pieces s) i) (select (pieces s) j)))) :pattern ((select (pieces s) i) (select (pieces s) j)))))
+
+; pub(r): the recipe with its derived (unexported, recomputed on every call) fields cleared
+(define-fun pub ((r CharRecipe)) CharRecipe
+  (mk_CharRecipe (CharRecipe_Length r) (CharRecipe_Allow r) (CharRecipe_Require r) (CharRecipe_Exclude r)
+                 (CharRecipe_AllowChars r) (CharRecipe_RequireSets r) (CharRecipe_ExcludeChars r) 0 (mk_Slice 0 0 0 0)))
+; noReq: no required source set has a non-excluded member (then nothing is required of a candidate)
+(define-fun noReqSrc ((r CharRecipe) (src Str)) Bool (forall ((c Str)) (! (=> (incs src c) (excluded r c)) :pattern ((incs src c)))))
+(declare-fun noReq (CharRecipe (Array Int Str) Int Int) Bool)
+;;@ axiom NOREQ-def optin trigger=noReq :: DEFINITION of the spec predicate noReq (no required set has a non-excluded member)
+(assert (forall ((r CharRecipe) (RS (Array Int Str)) (off Int) (n Int)) (! (= (noReq r RS off n)
+  (and (forall ((k Int)) (=> (and (<= 0 k) (< k n)) (noReqSrc r (select RS (idx off k)))))
+       (=> (bitset (CharRecipe_Require r) 1) (noReqSrc r cls_upper)) (=> (bitset (CharRecipe_Require r) 2) (noReqSrc r cls_lower))
+       (=> (bitset (CharRecipe_Require r) 4) (noReqSrc r cls_digits)) (=> (bitset (CharRecipe_Require r) 8) (noReqSrc r cls_symbols))
+       (=> (bitset (CharRecipe_Require r) 16) (noReqSrc r cls_ambiguous)))) :pattern ((noReq r RS off n)))))
+; quantities decided by the bounded check of C07 (uninterpreted here): functions of the public fields only
+(declare-fun alphaSize (CharRecipe (Array Int Str) Int Int) Int)      ; number of distinct characters in the alphabet
+(declare-fun entropyReq (CharRecipe (Array Int Str) Int Int) Real)    ; log2 of the number of strings meeting the requirements
+(declare-fun successProb (CharRecipe (Array Int Str) Int Int) Real)   ; fraction of unconstrained candidates that meet them
+
+; byte-wise string order (what sort.Strings uses): an uninterpreted strict total order
+(declare-fun strlt (Str Str) Bool)
+;;@ axiom STRLT-order trigger=strlt :: byte-wise order on strings is a strict total order
+(assert (forall ((a Str) (b Str)) (! (and (not (and (strlt a b) (strlt b a))) (=> (not (= a b)) (or (strlt a b) (strlt b a))) (not (strlt a a))) :pattern ((strlt a b)))))
+;;@ axiom SORTEDPERM-def trigger=sortedperm :: extern sort.Strings: the result range holds the same strings (as a set, and duplicate-free if the input was) in non-decreasing order
+(assert (forall ((A (Array Int Str)) (B (Array Int Str)) (lo Int) (hi Int)) (! (=> (sortedperm A B lo hi)
+  (and (forall ((c Str)) (= (exists ((k Int)) (and (<= lo k) (< k hi) (= (select B k) c))) (exists ((k Int)) (and (<= lo k) (< k hi) (= (select A k) c)))))
+       (forall ((i Int) (j Int)) (! (=> (and (<= lo i) (< i j) (< j hi)) (not (strlt (select B j) (select B i)))) :pattern ((select B i) (select B j))))
+       (=> (forall ((i Int) (j Int)) (=> (and (<= lo i) (< i j) (< j hi)) (not (= (select A i) (select A j)))))
+           (forall ((i Int) (j Int)) (! (=> (and (<= lo i) (< i j) (< j hi)) (not (= (select B i) (select B j)))) :pattern ((select B i) (select B j)))))
+       (forall ((k Int)) (! (=> (or (< k lo) (>= k hi)) (= (select B k) (select A k))) :pattern ((select B k))))))
+  :pattern ((sortedperm A B lo hi)))))
